@@ -25,6 +25,13 @@ type ksRec struct {
 type c20Case struct {
 	Comp int      `json:"comp"`
 	Recs []c12Rec `json:"recs"`
+	// a writer program with a seek-back: Recs[:TailAt], then Tail, then Seek back to where Tail began, then Recs[TailAt:]
+	Tail   []c12Rec `json:"tail,omitempty"`
+	TailAt int      `json:"tail_at,omitempty"`
+	// probe mode: which compression codes does the writer accept at all (each must be named by the schema)
+	Probe    bool  `json:"probe,omitempty"`
+	Accepted []int `json:"accepted,omitempty"`
+	Unnamed  []int `json:"unnamed,omitempty"`
 	// observations
 	File    []byte   `json:"file"`
 	Offs    []uint64 `json:"offs"`
@@ -55,14 +62,63 @@ func (c *c20Case) Exec() {
 			c.Fatal = fmt.Sprint("panic: ", r)
 		}
 	}()
-	c.Fatal, c.KErr, c.KRecs, c.Offs, c.Native = "", "", nil, nil, nil
+	c.Fatal, c.KErr, c.KRecs, c.Offs, c.Native, c.Accepted, c.Unnamed = "", "", nil, nil, nil, nil, nil
 	dir := tmpDir("c20-")
 	defer os.RemoveAll(dir)
+	if c.Probe {
+		for code := 0; code < 64; code++ {
+			p := filepath.Join(dir, fmt.Sprintf("probe%d.rio", code))
+			ok := func() (ok bool) {
+				defer func() {
+					if recover() != nil {
+						ok = false
+					}
+				}()
+				w, err := recordio.NewFileWriter(recordio.Path(p), recordio.CompressionType(code))
+				if err != nil || w.Open() != nil {
+					return false
+				}
+				if _, err := w.Write([]byte("probe record")); err != nil {
+					return false
+				}
+				return w.Close() == nil
+			}()
+			if !ok {
+				continue
+			}
+			// the code that is really in the file header
+			b, _ := os.ReadFile(p)
+			if len(b) < 8 {
+				continue
+			}
+			written := int(b[4]) | int(b[5])<<8 | int(b[6])<<16 | int(b[7])<<24
+			c.Accepted = append(c.Accepted, written)
+			if inKsy, inGo := schemaNamesCompression(written); !inKsy || !inGo {
+				c.Unnamed = append(c.Unnamed, written)
+			}
+		}
+		return
+	}
 	path := filepath.Join(dir, "f.rio")
 	w, err := recordio.NewFileWriter(recordio.Path(path), recordio.CompressionType(c.Comp), recordio.BufferSizeBytes(4096))
 	must(err)
 	must(w.Open())
 	for i := range c.Recs {
+		if len(c.Tail) > 0 && i == c.TailAt {
+			mark := w.Size()
+			for _, t := range c.Tail {
+				var b []byte
+				if !t.Nil {
+					b = t.Rec
+					if b == nil {
+						b = []byte{}
+					}
+				}
+				_, err := w.Write(b)
+				must(err)
+			}
+			must(w.Seek(mark))
+		}
 		off, err := w.Write(c.rec(i))
 		must(err)
 		c.Offs = append(c.Offs, off)
@@ -108,6 +164,12 @@ func (c *c20Case) Oracle() (bool, string) {
 	if c.Fatal != "" {
 		return false, c.Fatal
 	}
+	if c.Probe {
+		if len(c.Unnamed) > 0 {
+			return false, fmt.Sprintf("the writer accepts and writes compression code %d, which the compression enum of the schema (ksy / generated Go) does not name", c.Unnamed[0])
+		}
+		return true, ""
+	}
 	if c.KErr != "" {
 		return false, "kaitai parse failed: " + c.KErr
 	}
@@ -137,7 +199,7 @@ func (c *c20Case) Oracle() (bool, string) {
 }
 
 func (c *c20Case) Sx() string {
-	if c.Fatal != "" {
+	if c.Fatal != "" || c.Probe {
 		return ""
 	}
 	var recs, ctab, krecs []string
@@ -158,7 +220,7 @@ func (c *c20Case) Sx() string {
 	return sxL(sxI(c.Comp), sxList(ctab), sxList(recs), sxB(c.File), sxBool(c.KErr != ""), sxN(uint64(c.Version)), sxI(c.KComp), sxList(krecs))
 }
 
-func (c *c20Case) Nontrivial() bool { return len(c.Recs) >= 2 }
+func (c *c20Case) Nontrivial() bool { return len(c.Recs) >= 2 || len(c.Accepted) >= 2 }
 func (c *c20Case) Kind() string     { return fmt.Sprintf("comp=%d/recs=%s", c.Comp, bucket(len(c.Recs))) }
 
 func genC20(r *rand.Rand, tier string) []Case {
@@ -190,8 +252,24 @@ func genC20(r *rand.Rand, tier string) []Case {
 				c.Recs = append(c.Recs, c12Rec{Rec: advPayload(r, maxLen)})
 			}
 		}
+		if i%5 == 2 && len(c.Recs) > 0 {
+			// some records were written beyond and given up again: a tail (often nil records, which have no payload)
+			// is written, then the writer seeks back over it and goes on
+			c.TailAt = r.Intn(len(c.Recs) + 1)
+			for j := 0; j < 1+r.Intn(4); j++ {
+				if r.Intn(2) == 0 {
+					c.Tail = append(c.Tail, c12Rec{Nil: true})
+				} else {
+					c.Tail = append(c.Tail, c12Rec{Rec: advPayload(r, 60)})
+				}
+			}
+			if r.Intn(2) == 0 {
+				c.Tail = append(c.Tail, c12Rec{Nil: true}, c12Rec{Nil: true}) // the very end of the file is a nil record
+			}
+		}
 		cases = append(cases, c)
 	}
+	cases = append(cases, &c20Case{Probe: true})
 	return cases
 }
 
